@@ -116,6 +116,19 @@ func (e *Exec) wideLE(ts []*Term) *Term {
 	b := e.b
 	var sum *Term = b.IntConst(big.NewInt(0))
 	sh := 0
+	// regroup small elements into 64-bit chunks (adjacent extracts collapse to the limb they came from)
+	if len(ts) > 0 && int(ts[0].S) < 64 && 64%int(ts[0].S) == 0 {
+		per := 64 / int(ts[0].S)
+		var g []*Term
+		for i := 0; i < len(ts); i += per {
+			j := i + per
+			if j > len(ts) {
+				j = len(ts)
+			}
+			g = append(g, e.concatLE(ts[i:j]))
+		}
+		ts = g
+	}
 	for _, t := range ts {
 		term := b.Bv2Int(t)
 		if sh > 0 {
@@ -272,7 +285,7 @@ func (e *Exec) zzIntrinsic(name string, args []Value) (Value, bool) {
 		return b.Bool(ok && t.IsConst()), true
 
 	// ---- wide integers (Int sort)
-	case "zzWLE":
+	case "zzWLE", "zzWLE64", "zzWLE32":
 		return e.wideLE(e.sliceTerms(args[0])), true
 	case "zzWBE":
 		ts := e.sliceTerms(args[0])
@@ -313,7 +326,7 @@ func (e *Exec) zzIntrinsic(name string, args []Value) (Value, bool) {
 		return b.Eq(b.IMod(d, b.IntConst(e.bigConst(e.argStr(args[2])))), b.IntConst(big.NewInt(0))), true
 	case "zzWIte":
 		return b.Ite(e.termOf(args[0]), e.termOf(args[1]), e.termOf(args[2])), true
-	case "zzWMulLimbs":
+	case "zzWMulLimbs", "zzWMulLimbs64":
 		// Σ (x_i * y_j) 2^(64(i+j)) with the same 128-bit product terms bits.Mul64 creates
 		xs := e.groupLimbs(e.sliceTerms(args[0]), 64)
 		ys := e.groupLimbs(e.sliceTerms(args[1]), 64)
@@ -449,8 +462,7 @@ func (e *Exec) intrinsic(fn *ssa.Function, args []Value) (Value, bool) {
 			w = 32
 		}
 		x, y, c := e.termOf(args[0]), e.termOf(args[1]), e.termOf(args[2])
-		c1 := b.ZExt(c, w+1) // exact for the documented carry domain {0,1}
-		s := b.Add(b.Add(b.ZExt(x, w+1), b.ZExt(y, w+1)), c1)
+		s := b.AddC(x, y, c) // exact for the documented carry domain {0,1}
 		return TupleV{b.Extract(s, w-1, 0), b.ZExt(b.Extract(s, w, w), w)}, true
 	case "math/bits.Sub64", "math/bits.Sub32", "math/bits.Sub":
 		w := 64
@@ -458,7 +470,7 @@ func (e *Exec) intrinsic(fn *ssa.Function, args []Value) (Value, bool) {
 			w = 32
 		}
 		x, y, c := e.termOf(args[0]), e.termOf(args[1]), e.termOf(args[2])
-		d := b.Sub(b.Sub(b.ZExt(x, w+1), b.ZExt(y, w+1)), b.ZExt(c, w+1))
+		d := b.SubB(x, y, c)
 		return TupleV{b.Extract(d, w-1, 0), b.ZExt(b.Extract(d, w, w), w)}, true
 	case "math/bits.Mul64", "math/bits.Mul32", "math/bits.Mul":
 		w := 64
